@@ -32,6 +32,11 @@ def cases(tier, seed):
         for rank in ([1, 1, 1, 1, 1], [1, 2, 1, 2, 1]):
             for batch in ([], [2]):
                 cs.append({'scen': 'tt_layer', 's': {'size_in': sin, 'size_out': sout, 'rank': rank, 'batch': batch, 'init': 'He', 'dtype': 'float64', 'call': True}})
+    # the same layer object called twice with different numbers of batch dimensions
+    for sin, sout in [([3, 3], [3, 3]), ([2, 3], [3, 1]), ([3], [2]), ([2, 2, 2], [2, 2, 2])]:
+        d = len(sin)
+        for fb, b in (([2], []), ([], [2]), ([2, 1], [2]), ([3], [2, 3])):
+            cs.append({'scen': 'tt_layer', 's': {'size_in': sin, 'size_out': sout, 'rank': [1] + [2] * (d - 1) + [1], 'batch': b, 'first_batch': fb, 'init': 'He', 'dtype': 'float64', 'call': True}})
     # precision changed after construction
     for sin, sout in [([2, 3], [3, 1]), ([3], [2])]:
         d = len(sin)
